@@ -20,6 +20,7 @@ RULE = (
     'in the documented order (leaves in pytree order, each row-major), shape (out_size, in_size); the generic '
     'AbstractLinearOperator.as_matrix(op) == the same matrix (run for inputs of <= 12 elements); op(x) flattened == '
     'as_matrix() @ flatten(x). non-trivial = >= 2 input or output leaves, or an as_matrix override in the tree.'
+    ' Also: diagonal values with the shape of a square leaf on permuted axes; the same operator object several times in one sum; complex coefficients on real and on complex data for einsum blocks, diagonals and block row/column/diagonal operators (as_matrix, generic as_matrix and, on complex data, the transpose).'
 )
 ASSUMPTIONS = [
     'sizes <= ~40 elements; the generic column-by-column as_matrix costs an XLA compile per call and is run on a subset',
